@@ -24,7 +24,7 @@ META = {
     'note': 'Trusted: TLC, JSON plumbing. Time is virtual: pcbasic.basic.sound reads a harness clock that only advances inside EventQueues.wait, so foreground (MF) statements '
             'and full queues do not sleep. Observed durations (doubles) are mapped to the nearest rational with denominator <= 2.1e6 (the expected ones have denominators '
             '<= 1.05e6, so equality is decided exactly); frequencies are compared in mHz with +-1 tolerance. "duration ... followed by a gap of 1/8, 0, 1/4 of that duration" '
-            'is read as: the gap is the silent tail of the note\'s time slot (tone + gap = slot). Single-voice syntax only (no Tandy/PCjr three-voice PLAY, no V command).',
+            'is read as: the gap is the silent tail of the note\'s time slot (tone + gap = slot). The V command is not generated.',
 }
 _STMT = re.compile(r'^<<"STMT", "(.*)">>\s*$')
 
@@ -110,10 +110,94 @@ class Player(object):
         st = self.state()
         if st:
             obs['st'] = st
-        return {'op': 'play', 'cmds': row['cmds'], 'sep': row['sep'], 'text': row['text'], 'obs': obs}
+        return {'op': 'play', 'cmds': row['cmds'], 'sep': row['sep'], 'text': row['text'], 'obs': obs, '_row': row if 'vars' in row or 'sep' in row else None}
 
     def close(self):
         self.s.close()
+
+
+class Player3(Player):
+    """Three-voice PLAY on the Tandy dialect: one music string per voice, every voice with its own state."""
+
+    def __init__(self, clock):
+        self.clock = clock
+        self.s = Sess(syntax='tandy', video='tandy')
+        self.q = _queue.Queue()
+        self.s.impl.queues.audio = self.q
+        qs = self.s.impl.queues
+        self.waits = 0
+
+        def wait():
+            self.waits += 1
+            clock.t += 0.25
+            qs.check_events()
+        qs.wait = wait
+
+    def drain3(self):
+        raw = [[], [], []]
+        while True:
+            try:
+                ev = self.q.get(False)
+            except _queue.Empty:
+                break
+            if ev.event_type == 'tone':
+                voice, freq, dur, loop, vol = ev.params
+                f = int(round(float(freq) * 1000))
+                if voice in (0, 1, 2) and f != 0 and float(dur) > 0:       # sounding tones only (alignment silences are dropped)
+                    fr = Fraction(float(dur)).limit_denominator(2100000)
+                    raw[voice].append([f if abs(f) < 2 ** 31 else -2, fr.numerator, fr.denominator])
+        return raw
+
+    def states(self):
+        out = []
+        snd = self.s.impl.sound
+        for v in snd._state[:3]:
+            fill = {0.875: 'N', 1.0: 'L', 0.75: 'S'}.get(float(v.fill), '?')
+            out.append({'oct': int(v.octave), 'len': int(round(1.0 / v.length)), 'tempo': int(round(240.0 / v.tempo)), 'fill': fill})
+        return out
+
+    def reset3(self, stmt=None):
+        if stmt:
+            self.s.ex(stmt)
+        self.drain3()
+        return {'op': 'reset3', 'st': self.states()}
+
+    def play3(self, rows):
+        self.drain3()
+        text = ','.join('"%s"' % r['text'] for r in rows)
+        r = self.s.ex('PLAY ' + text)
+        obs = {'k': 'ok' if r[0] == 'ok' else 'err' if r[0] == 'err' else 'internal', 'code': r[1] if r[0] == 'err' else 0,
+               'raw': self.drain3(), 'st': self.states()}
+        return {'op': 'play3', 'cmds': [r['cmds'] for r in rows], 'text': text, 'obs': obs}
+
+
+def three_voice_arm(ctx, clock, events, stmts):
+    """PLAY with three music strings (syntax=tandy): rows of the generator that ran without error in the single-voice arm and
+    reference no variables are combined three at a time; Play3_Trace.tla re-runs every voice from its own state."""
+    rng = ctx.rng
+    ok_rows = [e for e in events if e['op'] == 'play' and e['obs']['k'] == 'ok' and e.get('_row') is not None
+               and not e['_row'].get('vars') and 0 < len(e['_row']['text']) <= 70]
+    if len(ok_rows) < 30:
+        raise core.MachineryError('three-voice arm: too few well-formed rows (%d)' % len(ok_rows))
+    p = Player3(clock)
+    ev3 = [p.reset3()]
+    n = ctx.pick(250, 3000)
+    for i in range(n):
+        if i and i % 40 == 0:
+            ev3.append(p.reset3(rng.choice(['CLEAR', 'NEW'])))
+        rows = [rng.choice(ok_rows)['_row'] for _ in range(3)]
+        ev3.append(p.play3(rows))
+    p.close()
+    verdicts = ctx.validate('Play3_Trace', [{k: v for k, v in e.items() if k != 'text'} for e in ev3], name='play3')
+    ctx.cov['three_voice_statements'] = n
+    ctx.cov['three_voice_sounding_tones'] = sum(len(r) for e in ev3 if e['op'] == 'play3' for r in e['obs']['raw'])
+    for (i, clause) in verdicts:
+        e = ev3[i - 1]
+        ctx.reject('C42 %s (three voices, syntax=tandy): PLAY %s -> %s raw=%s states=%s' % (
+            clause, e['text'][:200], e['obs']['k'], [r[:4] for r in e['obs']['raw']], e['obs']['st']),
+            key={'clause': clause, 'kind': 'three_voice'}, data={'event': e})
+    if not ctx.cov['three_voice_sounding_tones']:
+        raise core.MachineryError('vacuous: the three-voice arm recorded no tone')
 
 
 def run(ctx):
@@ -184,6 +268,7 @@ def run(ctx):
             k += 1
     waits = p.waits
     p.close()
+    three_voice_arm(ctx, clock, events, stmts)
     pool.shutdown()
     f_mc.result()
     ctx.cov['virtual_waits_last_session'] = waits
@@ -209,7 +294,8 @@ def run(ctx):
     keep = ('k', 'code', 'raw', 'st')
     jobs = []
     for bi, b in enumerate(batches):
-        evs = [dict(e, obs={k_: v for k_, v in e['obs'].items() if k_ in keep}) if e['op'] == 'play' else e for _, e in b]
+        evs = [{k2: v2 for k2, v2 in dict(e, obs={k_: v for k_, v in e['obs'].items() if k_ in keep}).items() if k2 != '_row'}
+               if e['op'] == 'play' else e for _, e in b]
         jobs.append((b, pool.submit(ctx.validate, 'Play_Trace', evs, None, None, None, 3600, False, 'play%d' % bi)))
     ctx.cov['traces_validated_against_impl'] += nwalk + len(batches)
     import os, collections
